@@ -223,11 +223,71 @@ def orbits(ctx):
             ctx.check(dmin <= 1e-4, "iv:reported eigenvalues belong to the reference spectrum", lambda: {**wit(), "eig": v, "ref": ev_ref})
 
 
+def generic_monodromy(ctx, n):
+    """orbit.monodromy must be the derivative of the period map for ANY stored state and period — not only for states on a
+    symmetry plane: GenericOrbit with arbitrary state and user-set period, and re-phased points of corrected orbits."""
+    from hiten import System
+    from hiten.system import LyapunovOrbit
+    from hiten.system.orbits.base import GenericOrbit
+    rng = ctx.rng
+    mu = 0.012150585609624
+    sysm = System.from_mu(mu)
+    pt = sysm.get_libration_point(1)
+    # (a) arbitrary states, arbitrary "period"
+    for i in range(n):
+        if not ctx.mine(i):
+            continue
+        x0 = gen_x0(rng, mu, ["L1", "L2", "generic"][i % 3])
+        T = float(rng.uniform(0.3, 2.5))
+        try:
+            xr, Mr = ref.flow_stm(x0, mu, T, t_eval=np.linspace(0, T, 121))
+        except Exception:
+            ctx.skip("reference flow failed")
+            continue
+        if min_dist(xr, mu) < 0.05 or np.linalg.norm(Mr[-1], 2) > 1e4:
+            ctx.skip("path within 0.05 of a primary or |Phi|>1e4")
+            continue
+        orb = GenericOrbit(pt, initial_state=x0)
+        orb.period = T
+        M = np.asarray(orb.monodromy)
+        nM = np.linalg.norm(Mr[-1], 2)
+        e = np.abs(M - Mr[-1]).max()
+        ctx.case("monodromy:generic-state", [x0.round(10).tolist(), T], nontrivial=abs(x0[1]) > 1e-6)
+        ctx.stat("generic_monodromy_err/|M|^2", e / nM ** 2)
+        ctx.check(e <= 1e-6 * nM ** 2, "iv:orbit.monodromy == derivative of the period map for an arbitrary stored state and period",
+                  {"mu": mu, "x0": x0, "period": T, "err": e, "normM": nM})
+    # (b) a corrected orbit re-phased off its symmetry plane: M f = f must still hold
+    if ctx.mine(0):
+        lyap = pt.create_orbit(LyapunovOrbit, amplitude_x=0.03)
+        try:
+            lyap.correct()
+        except Exception:
+            ctx.skip("Lyapunov correction failed — C05's concern")
+            return
+        x0 = np.asarray(lyap.initial_state, dtype=float)
+        T = float(lyap.period)
+        for frac in (0.13, 0.37, 0.71):
+            xs = ref.flow(x0, mu, [0.0, frac * T])[-1]
+            orb = GenericOrbit(pt, initial_state=xs)
+            orb.period = T
+            M = np.asarray(orb.monodromy)
+            _, Mr = ref.flow_stm(xs, mu, T)
+            nM = np.linalg.norm(Mr, 2)
+            f0 = ref.field(xs, mu)
+            r = np.linalg.norm(M @ f0 - f0) / (nM * np.linalg.norm(f0))
+            e = np.abs(M - Mr).max() / nM ** 2
+            ctx.case("monodromy:rephased-orbit", [frac], nontrivial=True)
+            ctx.stat("rephased |M f - f|/(|M||f|)", r)
+            ctx.check(r <= 1e-6 and e <= 1e-6, "iv:monodromy of a re-phased periodic orbit maps its velocity vector to itself",
+                      {"mu": mu, "phase_fraction": frac, "state": xs, "period": T, "Mf_residual": r, "err_vs_reference": e})
+
+
 def run(ctx):
     ctx.note("rule", "case = (mu, x0, tf, direction, method/order) STM computation or one corrected periodic orbit; non-trivial = spatial "
                      "state (z != 0); paths >= 0.05 from the primaries, |Phi| <= 1e4")
     guarded(ctx, "pointwise", pointwise, ctx, ctx.pick(60, 1800))
     guarded(ctx, "orbits", orbits, ctx)
+    guarded(ctx, "generic_monodromy", generic_monodromy, ctx, ctx.pick(6, 120))
     m = 1 if ctx.nshards > 1 else 4
     ctx.require("i:Phi_T == derivative of the flow (reference variational flow)", 5 * m)
     ctx.require("iii:canonical two-form preserved[fwd+1]", 3 * m)
